@@ -60,6 +60,8 @@ def reductions_order_independent(ctx, rule, f, s):
 
 def check(ctx):
     p = ctx.prog
+    # all arithmetic behind this property happens in the numeric type T of the instantiation
+    single_precision(ctx, 'prec.single_type', ['hep::weighted_with_variance::', 'hep::weighted_equally::', 'hep::chi_square_dof', 'hep::hep_distribution_accumulator', 'hep::create_result', 'hep::mc_result::'], 1)
     ctx.assume('positive variances, calls >= 2 for every combined result (property premise)')
 
     # ---------------------------------------------------------------- R3 create_result
@@ -252,6 +254,34 @@ def check(ctx):
                 if v0 == T.vempty() and lo == ZERO and hi == n and g == T.TRUE and x == want \
                         and b[2] == ZERO and en == ('iter', b[1], n):
                     ok = True
+            # the combined bins are assembled into the returned distributions: distribution j holds exactly its own
+            # bins, in order, with the parameters of distribution j
+            dres = simplify_under(fld(res, 'distributions_'), (('!=', n, ZERO),))
+            binres = ('hcall', acc, e['obj']) + tuple(e['args'])
+            want_d = ('vcomp', T.vempty(), j, ZERO, T.size(dist0), T.TRUE,
+                      None)
+            ok_a = False
+            if isinstance(dres, tuple) and dres and dres[0] == 'vcomp' and dres[1] == T.vempty() and \
+                    (dres[3], simplify_under(dres[4], pcs)) == want_j and dres[5] == T.TRUE:
+                jj = dres[2]
+                el = dres[6]
+                par = fld(el, 'parameters_')
+                rs = fld(el, 'results_')
+                ok_a = par == fld(sel(dist0, jj), 'parameters_') and isinstance(rs, tuple) and rs and \
+                    rs[0] == 'vcomp' and rs[1] == T.vempty() and rs[3] == ZERO and \
+                    simplify_under(rs[4], pcs) == T.size(fld(sel(dist0, jj), 'results_')) and rs[5] == T.TRUE and \
+                    T.subst(rs[6], {rs[2]: k, jj: j}) == binres
+            if ok_a:
+                ctx.holds('R4.assembled', where, 'distribution j of the combination = (parameters of distribution j, '
+                          'its combined bins in order, nothing else)')
+            elif any(isinstance(t, tuple) and t and t[0] == 'havoc' for t in T.subterms(dres)):
+                raise AnalysisBroken('the way the combined bins are put into the returned distributions is not '
+                                     'recognised')
+            else:
+                ctx.violation('R4.assembled', where, 'the returned distributions are not (parameters of distribution '
+                              'j, the combined bins of distribution j): e.g. a scratch vector that is not emptied '
+                              'between distributions carries the bins of earlier distributions along',
+                              {'distributions': T.pretty(dres)[:500]})
             if ok:
                 ctx.holds('R4.bins', where, 'bin (j,k) of the combination = Accumulator over bin '
                           '(j,k) of every result, same rule as the integrated result')
